@@ -1063,11 +1063,14 @@ fn exec_sys_function(song: &mut Song, t: &Token) -> bool {
         if arg_count >= 2 {
             let min = args[0].to_i();
             let max = args[1].to_i();
-            let rnd = (song.rand() & 0x7FFFFFFF) as isize % (max - min + 1) + min;
+            let range = max - min + 1;
+            let r = (song.rand() & 0x7FFFFFFF) as isize;
+            let rnd = if range == 0 { min } else { r % range + min };
             song.stack.push(SValue::from_i(rnd));
         } else if arg_count == 1 {
             let m = args[0].to_i();
-            let v = ((song.rand() & 0x7FFFFFFF) as isize) % m;
+            let r = (song.rand() & 0x7FFFFFFF) as isize;
+            let v = if m == 0 { 0 } else { r % m };
             song.stack.push(SValue::from_i(v));
         } else if arg_count == 0 {
             let v = song.rand() as isize;
@@ -1075,8 +1078,12 @@ fn exec_sys_function(song: &mut Song, t: &Token) -> bool {
         }
     }
     else if func_name == "RandomSelect" {
-        let r = song.rand() as usize % arg_count;
-        song.stack.push(args[r as usize].clone());
+        if arg_count == 0 {
+            song.stack.push(SValue::None);
+        } else {
+            let r = song.rand() as usize % arg_count;
+            song.stack.push(args[r as usize].clone());
+        }
     }
     else if func_name == "CHR" || func_name == "Chr" {
         if arg_count >= 1 {
